@@ -22,6 +22,7 @@ EXPLANATION = EXPLANATION + " Added while testing against seeded changes: " + EX
 EXPLANATION = EXPLANATION + " Round 10: R5 also requires the converted error to be propagated; (R11) outside the wind-down every error of the WebSocket sink / source is propagated with `?` up to the future polled by the task's select."
 EXPLANATION = EXPLANATION + " Rounds 12-13: R9 also requires that a dispatch error does not end the wind-down's loop over the buffered messages (leaving on the peer's Close is fine)."
 EXPLANATION = EXPLANATION + ' Rounds 14-15: (S8) the WebSocket adapters hand every message of the underlying stream to the task (no loop, no filter) and keep Close / Ping / Pong / Binary what they are.'
+EXPLANATION = EXPLANATION + ' Rounds 16-17: (R12) the dequeue of accept_stream_channel / next_bind_request / get_datagram is not inside a loop (followed up through poll_fn closures).'
 ASSUMPTIONS = ["poll_fn closures are polled by the await that follows their creation",
                "tokio mpsc close()/recv() semantics (clean shutdown) as documented"]
 NOT_DECIDED = "completion of operations racing with teardown; enumeration of cut points; timing"
